@@ -535,6 +535,10 @@ func keyNames(ncols int) []string {
 	return ks
 }
 
+// keyStruct drives the reflection (struct) branch of the window encoders; a missing value cannot be
+// expressed in a struct, so 'm' becomes a nil field (the same NULL group).
+type keyStruct struct{ K1, K2, K3 any }
+
 func encoderCases(rng *RNG, o *Out, n int) error {
 	for i := 0; i < n; i++ {
 		ncols := rng.Intn(4)
@@ -568,6 +572,21 @@ func encoderCases(rng *RNG, o *Out, n int) error {
 			}
 			o.Line("C04 K glb %d %s %s", ncols, vs, hexTok(gw.VerifGetKey(m)))
 			gw.Stop()
+			if ncols > 0 {
+				var st keyStruct
+				fields := []*any{&st.K1, &st.K2, &st.K3}
+				for j, v := range t {
+					*fields[j], _ = v.goValue()
+				}
+				names := []string{"K1", "K2", "K3"}[:ncols]
+				cws, err := window.NewCountingWindow(types.WindowConfig{Params: []any{2}, GroupByKeys: names})
+				if err != nil {
+					return err
+				}
+				o.Line("C04 K cnt %d %s %s", ncols, vs, hexTok(cws.VerifGetKey(st)))
+				cws.Stop()
+				o.Line("C04 K ses %d %s %s", ncols, vs, hexTok(window.VerifSessionKey(&st, names)))
+			}
 			if ncols == 1 {
 				if x, ok := t[0].goValue(); ok {
 					o.Line("C04 K part 1 %s %s", vs, hexTok(cast.GroupKeyPart(x)))
